@@ -22,7 +22,7 @@ MANIFEST_INFO = {
     "engine": "E",
     "design_ref": "DESIGN.md section 5, C19",
     "technique": "bounded-exhaustive enumeration of all suite trees up to a node bound (6 suite kinds incl. testtools' FixtureSuite x 4 leaf labels, duplicates included) x all 16 id subsets, checked against a list-of-leaves reference model; testtools.run --list/--load-list driven in-process on a synthetic module for every small tree",
-    "level_text": "Every ordered tree with at most 5 (quick) / 6 (thorough) nodes over plain TestSuite, a custom subclass, one with sort_tests, one with an in-place filter_by_ids, one whose filter_by_ids returns a new suite and testtools' own FixtureSuite (each possibly empty), with PlaceHolder and stdlib-TestCase leaves (given their ids afterwards: they compare equal to one another) over three ids (duplicates occur; one id has unittest's import-failure marker in the middle), is built afresh and passed to iterate_tests, to filter_by_ids for every subset of {a,b,c,z} (order, identity and the chain of enclosing suite objects of every surviving leaf are compared; the caller then adds a test of its own to every empty suite the call created, which no later call may see), and to sorted_tests (ValueError iff duplicate ids, otherwise the documented order). For every tree of at most 4 (quick) / 5 (thorough) nodes the two compositions sort-then-filter (what testtools.run discover --load-list does) and filter-then-sort are checked for every subset. For every tree of at most 4 nodes, testtools.run --list and --load-list (every subset, via a scratch file) are run in-process, --load-list also with the program given a module whose load_tests hook returns the tree itself.",
+    "level_text": "Every ordered tree with at most 5 (quick) / 6 (thorough) nodes over plain TestSuite, a custom subclass, one with sort_tests, one with an in-place filter_by_ids, one whose filter_by_ids returns a new suite and testtools' own FixtureSuite (each possibly empty), with PlaceHolder and stdlib-TestCase leaves (given their ids afterwards: they compare equal to one another) over three ids (duplicates occur; one id has unittest's import-failure marker in the middle, one ends in a no-break space, which is not a blank an id-list line is stripped of), is built afresh and passed to iterate_tests, to filter_by_ids for every subset of {a,b,c,z} (order, identity and the chain of enclosing suite objects of every surviving leaf are compared; the caller then adds a test of its own to every empty suite the call created, which no later call may see), and to sorted_tests (ValueError iff duplicate ids, otherwise the documented order). For every tree of at most 4 (quick) / 5 (thorough) nodes the two compositions sort-then-filter (what testtools.run discover --load-list does) and filter-then-sort are checked for every subset. For every tree of at most 4 nodes, testtools.run --list and --load-list (every subset, via a scratch file) are run in-process, --load-list also with the program given a module whose load_tests hook returns the tree itself.",
     "level_note": "The reference model is a recursive list of leaves; custom filter_by_ids is a correct in-place implementation; the position of empty custom suites in sorted_tests output is not constrained (they hold no tests).",
 }
 
@@ -30,8 +30,10 @@ SUITE_KINDS = ("plain", "custom", "sorting", "filtering", "copying", "fixture")
 # (the third id has the text of unittest's import-failure pseudo tests in the middle: a test of a class
 # called TestModuleImportFailure is a test like any other)
 ID_C = "c.TestModuleImportFailure.test"
-LEAF_LABELS = (("ph", "a"), ("ph", "b"), ("ph", ID_C), ("tc", "a"))
-SUBSETS = [frozenset(s) for n in range(5) for s in itertools.combinations(("a", "b", ID_C, "z"), n)]
+# (the second id ends in U+00A0: not one of the ASCII blanks an id-list line is stripped of, so it is part of the id)
+ID_B = "b\u00a0"
+LEAF_LABELS = (("ph", "a"), ("ph", ID_B), ("ph", ID_C), ("tc", "a"))
+SUBSETS = [frozenset(s) for n in range(5) for s in itertools.combinations(("a", ID_B, ID_C, "z"), n)]
 
 
 class CustomSuite(unittest.TestSuite):
@@ -381,7 +383,7 @@ def check_run(tree, res):
         for S, ending in [(S, "\n") for S in SUBSETS] + [(S, "\r\n") for S in SUBSETS[1:6]] + [(S, " \t\n") for S in SUBSETS[1:4]]:
             path = os.path.join(scratch, "ids")
             # one id per line; CRLF files and ids padded with blanks are read the same way
-            with open(path, "w", newline="") as f:
+            with open(path, "w", newline="", encoding="utf-8") as f:
                 for i in sorted(S):
                     f.write(i + ending)
             del RAN[:]
